@@ -1,0 +1,10 @@
+//go:build verif
+
+package packet
+
+import "time"
+
+// VerifResetSTPLog re-arms the process wide rate limiter of the "LLC STP protocol" log line of
+// Process8023Frame (stpNextLog: the line is written for the first STP frame and then at most once
+// every five minutes), so that a harness can execute the logging path for every frame it injects.
+func VerifResetSTPLog() { stpNextLog = time.Time{} }
